@@ -128,6 +128,11 @@ def _rng(kind, shape, seed):
     return r.permutation(int(shape[0])).astype(np.int64)
 
 
+def _index(idx):
+    idx = np.asarray(idx)
+    return idx if idx.dtype == np.bool_ else idx.astype(np.int64)   # a boolean tensor used as an index is a MASK
+
+
 def _slice(n, lo, hi):
     lo = None if _none(lo) else _i(lo)
     hi = None if _none(hi) else _i(hi)
@@ -215,8 +220,8 @@ OPS = {
     "cmp_lt": lambda a, b: _arr(a) < _arr(b), "cmp_le": lambda a, b: _arr(a) <= _arr(b), "cmp_gt": lambda a, b: _arr(a) > _arr(b),
     "cmp_ge": lambda a, b: _arr(a) >= _arr(b), "cmp_eq": lambda a, b: _arr(a) == _arr(b), "cmp_ne": lambda a, b: _arr(a) != _arr(b),
     "row": lambda t, i: _arr(t)[_i(i)], "at": lambda t, i: _arr(t)[_i(i)],
-    "take": lambda t, idx: _arr(t)[np.asarray(idx).astype(np.int64)],
-    "takecols": lambda t, idx: _arr(t)[:, np.asarray(idx).astype(np.int64)],
+    "take": lambda t, idx: _arr(t)[_index(idx)],
+    "takecols": lambda t, idx: _arr(t)[:, _index(idx)],
     "slice0": lambda t, lo, hi: _arr(t)[_slice(0, lo, hi)], "colslice": lambda t, lo, hi: _arr(t)[:, _slice(0, lo, hi)],
     "col": lambda t, i: _arr(t)[:, _i(i)], "entry": lambda t, i, j: np.asarray(_arr(t)[_i(i), _i(j)]),
     "narrow": lambda t, d, s, n: np.take(_arr(t), np.arange(_i(s), _i(s) + _i(n)), axis=_i(d)),
